@@ -57,16 +57,6 @@ def _definition(cx: Ctx, e):
     return e
 
 
-def _unpacked(fnode, call_suffix: str) -> list:
-    """names of the tuple target unpacking the result of the (single) call `...<call_suffix>(...)`"""
-    out = []
-    for st in own_nodes(fnode):
-        if isinstance(st, ast.Assign) and len(st.targets) == 1 and isinstance(st.targets[0], (ast.Tuple, ast.List)) and isinstance(st.value, ast.Call) \
-                and ((dotted(st.value.func) or "").endswith("." + call_suffix) or dotted(st.value.func) == call_suffix):
-            out.append([x.id if isinstance(x, ast.Name) else None for x in st.targets[0].elts])
-    return out[0] if len(out) == 1 else []
-
-
 def _vminus_names(f_, cx: Ctx) -> set:
     """locals holding v- = min(cb, vw) of a template routine"""
     prm = _params(f_)
@@ -77,6 +67,27 @@ def _vminus_names(f_, cx: Ctx) -> set:
                 if prm and eqx(st.value, pat, cx):
                     out.add(_target_name(st))
     return out
+
+
+def _matching_canon(S, fi, e, producer: str = "findMatching"):
+    """copy of expression e (of function fi) in which every sub-expression that denotes element k of the tuple returned by self.<producer>(..)
+    -- an unpacked name, `matching[k]`, `self.<producer>(..)[k]`, a copy of one of these -- is the name `matching__k`"""
+    from .c06 import _elem
+
+    def canon(x):
+        el = _elem(S, fi, x) if isinstance(x.ctx, ast.Load) else None
+        if el is not None and el[0] == producer:
+            return ast.copy_location(ast.Name(id=f"matching__{el[2]}", ctx=ast.Load()), x)
+        return None
+
+    class T(ast.NodeTransformer):
+        def visit_Subscript(self, x):
+            return canon(x) or self.generic_visit(x)
+
+        def visit_Name(self, x):
+            return canon(x) or x
+
+    return T().visit(copy.deepcopy(e))
 
 
 def _term(S, node):
@@ -247,22 +258,23 @@ def r15_5(chk: Check):
                     ok, how = is_zero(e - sp.Symbol("self.Tnucl", real=True) * sp.Symbol(next(iter(W)), real=True) ** (1 / sp.Symbol("self.mu", real=True)), chk.seed)
                 chk.ob("R15.5", f_.where(st), f"{q}: T+ = Tn w+^(1/mu) (inverse of w+ = (T+/Tn)^mu)", ok, how, key=f"Tp|{q}", how=how)
     # efficiencyFactor: wp = (Tp/Tn)**mu, wm from flux conservation: the enthalpies handed to the two integrations
-    fe = S.func(f"{TM}.efficiencyFactor")
+    from .c06 import written_out
+    fe = written_out(S, S.func(f"{TM}.efficiencyFactor"))      # (a loop over the two waves is written out case by case)
     ce = Ctx(S, fe)
     exx = hydro_extractor(S)
-    um = _unpacked(fe.node, "findMatching")
     ips = calls_in(fe.node, "self.integratePlasma")
     sh = [c for c in ips if kwarg(c, "shockWave", 3) is None or eqx(kwarg(c, "shockWave", 3), "True", ce)]
     ra = [c for c in ips if kwarg(c, "shockWave", 3) is not None and eqx(kwarg(c, "shockWave", 3), "False", ce)]
     ok1 = ok2 = False
-    if len(um) == 4 and None not in um and len(sh) == 1 and len(ra) == 1:
-        vpS, vmS, TpS = exx.sym(um[0]), exx.sym(um[1]), exx.sym(um[2])
+    if len(sh) == 1 and len(ra) == 1:
+        # (v+, v-, T+) are elements 0, 1, 2 of the tuple returned by findMatching, whether it is unpacked or addressed by index
+        vpS, vmS, TpS = (exx.sym(f"matching__{k}") for k in range(3))
         wpa, wma = kwarg(sh[0], "wp", 2), kwarg(ra[0], "wp", 2)
         WPn = wpa.id if isinstance(wpa, ast.Name) else None
-        wp_e = exx.expr(ce.resolve(wpa), dict(TENV)) if wpa is not None else None
+        wp_e = exx.expr(_matching_canon(S, fe, ce.resolve(wpa)), dict(TENV)) if wpa is not None else None
         ok1 = isinstance(wp_e, sp.Basic) and is_zero(wp_e - (TpS / exx.sym("self.Tnucl")) ** exx.sym("self.mu"))[0]
         keep = {WPn} if WPn else set()
-        wm_e = exx.expr(ce.resolve(wma, keep=keep), dict(TENV)) if wma is not None else None
+        wm_e = exx.expr(_matching_canon(S, fe, ce.resolve(wma, keep=keep)), dict(TENV)) if wma is not None else None
         wps = exx.sym(WPn) if WPn else wp_e
         ok2 = isinstance(wm_e, sp.Basic) and wps is not None and is_zero(wm_e - wps * vpS / (1 - vpS ** 2) * (1 - vmS ** 2) / vmS)[0]
     chk.ob("R15.5", fe.where(), "efficiencyFactor: w+ = (T+/Tn)^mu and w- = w+ gamma+^2 v+ / (gamma-^2 v-) (energy flux)", bool(ok1 and ok2), key="kappa-enthalpies")
